@@ -464,9 +464,27 @@ where
         Stage::VAbs => S::fw(s.into_fw().vabs()),
         Stage::Shift { n, v } => S::fw(s.into_fw().shift(*n, T::from_val(v))),
         Stage::VShift { n, fill } => S::fw(s.into_fw().vshift(*n, fill.as_ref().map(T::from_val))),
-        Stage::FFill { fill } => S::fw(s.into_fw().ffill(fill.as_ref().map(T::from_val))),
-        Stage::BFill { fill } => match s {
-            S::De(d) => S::fw(d.bfill(fill.as_ref().map(T::from_val))),
+        Stage::FFill { fill, mask } => {
+            let v = fill.as_ref().map(T::from_val);
+            // a flagged item with nothing to fill from becomes T::none(), which i32 does not have (the
+            // library panics by design, outside the property): such a stage runs with the default mask
+            let mask = if v.is_none() && matches!(T::TY, Ty::I32) { &0 } else { mask };
+            match mask {
+                0 => S::fw(s.into_fw().ffill(v)),
+                1 => S::fw(s.into_fw().ffill_mask(|_| true, v)),
+                _ => S::fw(s.into_fw().ffill_mask(|x| !x.is_none(), v)),
+            }
+        }
+        Stage::BFill { fill, mask } => match s {
+            S::De(d) => {
+                let v = fill.as_ref().map(T::from_val);
+                let mask = if v.is_none() && matches!(T::TY, Ty::I32) { &0 } else { mask };
+                match mask {
+                    0 => S::fw(d.bfill(v)),
+                    1 => S::fw(d.bfill_mask(|_| true, v)),
+                    _ => S::fw(d.bfill_mask(|x| !x.is_none(), v)),
+                }
+            }
             _ => return bad("bfill needs a double-ended stream"),
         },
         Stage::Fill { v } => S::fw(s.into_fw().fill(T::from_val(v))),
@@ -621,9 +639,23 @@ pub fn apply_stage<'a>(
             Stage::StepBy { k } => S::fw(s.into_fw().step_by((*k).max(1))),
             Stage::Shift { n, v } => S::fw(s.into_fw().shift(*n, Tracked::from_val(v))),
             Stage::VShift { n, fill } => S::fw(s.into_fw().vshift(*n, fill.as_ref().map(Tracked::from_val))),
-            Stage::FFill { fill } => S::fw(s.into_fw().ffill(fill.as_ref().map(Tracked::from_val))),
-            Stage::BFill { fill } => match s {
-                S::De(d) => S::fw(d.bfill(fill.as_ref().map(Tracked::from_val))),
+            Stage::FFill { fill, mask } => {
+            let v = fill.as_ref().map(Tracked::from_val);
+            match mask {
+                0 => S::fw(s.into_fw().ffill(v)),
+                1 => S::fw(s.into_fw().ffill_mask(|_| true, v)),
+                _ => S::fw(s.into_fw().ffill_mask(|x| !x.is_none(), v)),
+            }
+        }
+            Stage::BFill { fill, mask } => match s {
+                S::De(d) => {
+                let v = fill.as_ref().map(Tracked::from_val);
+                match mask {
+                    0 => S::fw(d.bfill(v)),
+                    1 => S::fw(d.bfill_mask(|_| true, v)),
+                    _ => S::fw(d.bfill_mask(|x| !x.is_none(), v)),
+                }
+            }
                 _ => return bad("bfill needs a double-ended stream"),
             },
             Stage::Fill { v } => S::fw(s.into_fw().fill(Tracked::from_val(v))),
